@@ -7,29 +7,37 @@ Statement (properties.jsonl): after any sequence of connection operations on
 units and streams, used within their preconditions, a stream is listed among a
 unit's inlets exactly when that unit is the stream's sink and among its outlets
 exactly when it is the stream's source, no stream occupies two ports, and port
-lists of fixed size keep their size with vacated ports filled by placeholders.
+lists of fixed size keep their size with vacated ports filled by placeholders
+that report no material.
 
-The model is `ThermoVerif.Network` (Model/Network.lean).  Preconditions are
-monitored by the model itself (`World.pre`, sticky): a history counts only while
-every primitive list operation was used as the property allows.
+The model is `ThermoVerif.Network` (Model/Network.lean).  Streams and placeholder
+objects (`AbstractMissingStream`) are both objects with identity (ids); the
+invariant below speaks about *every* object, so it covers the placeholders that
+fill vacant ports as well: a placeholder that is carried from one unit to another
+(unit-to-unit piping, `take_place_of`, `replace_with`, `insert` of a bare unit,
+slice or item assignment of another unit's ports) is listed exactly where its
+sink/source pointer says.  Preconditions are monitored by the model itself
+(`World.pre`, sticky) and apply to streams and placeholders alike: a history
+counts only while every primitive list operation was used as the property allows.
 -/
 namespace ThermoVerif.Props.C18
 open ThermoVerif.Network
 
-/-- The property on one side (inlets: `loc` = sink; outlets: `loc` = source).
-Placeholders are the non-real ids; they carry no material by construction. -/
-structure SideInv (real : Nat → Bool) (sd : Side) : Prop where
+/-- The property on one side (inlets: `loc` = sink; outlets: `loc` = source), for every object
+`s` — stream or placeholder.  Placeholders carry no material by construction (they have no flow
+data at all in the model). -/
+structure SideInv (sd : Side) : Prop where
   /-- listed among the unit's ports exactly when docked at that unit -/
-  listed_iff_docked : ∀ u s, real s = true → (s ∈ sd.lst u ↔ sd.loc s = some u)
-  /-- no stream occupies two ports of a list -/
-  no_two_ports : ∀ u s, real s = true → (sd.lst u).count s ≤ 1
+  listed_iff_docked : ∀ u s, (s ∈ sd.lst u ↔ sd.loc s = some u)
+  /-- no object occupies two ports of a list -/
+  no_two_ports : ∀ u s, (sd.lst u).count s ≤ 1
   /-- fixed-size lists keep their size -/
   fixed_size : ∀ u, sd.fixed u = true → (sd.lst u).length = sd.size u
 
 /-- The docking invariant of the whole flowsheet. -/
 structure Inv (w : World) : Prop where
-  ins : SideInv w.real w.ins
-  outs : SideInv w.real w.outs
+  ins : SideInv w.ins
+  outs : SideInv w.outs
 
 /-- Allocation discipline: ids at or above the counter are unused. -/
 structure Scoped (w : World) : Prop where
@@ -47,12 +55,11 @@ def Good (w : World) : Prop := w.pre = true → Inv w ∧ Scoped w
 
 /-! ### Bridge to the per-side count formulation used in the lemma files -/
 
-theorem sinv_of_sideInv {w : World} (k : Which) (hi : SideInv w.real (w.side k)) (hs : Scoped w) :
-    SInv w.nU (w.get k) := by
-  refine ⟨fun u s hr => ?_, fun u hf => ?_, ?_⟩
-  · have hr' : w.real s = true := by simpa using hr
-    have h1 := hi.listed_iff_docked u s hr'
-    have h2 := hi.no_two_ports u s hr'
+theorem sinv_of_sideInv {w : World} (k : Which) (hi : SideInv (w.side k)) (hs : Scoped w) :
+    SInv w.nU All (w.get k) := by
+  refine ⟨fun u s _ => ?_, fun u hf => ?_, ?_⟩
+  · have h1 := hi.listed_iff_docked u s
+    have h2 := hi.no_two_ports u s
     simp only [get_sd]
     by_cases hl : (w.side k).loc s = some u
     · have := List.count_pos_iff.mpr (h1.mpr hl)
@@ -64,34 +71,33 @@ theorem sinv_of_sideInv {w : World} (k : Which) (hi : SideInv w.real (w.side k))
   · constructor
     · intro u s h; simpa using hs.lst_lt k u s (by simpa using h)
     · intro s h; simpa using hs.loc_none k s (by simpa using h)
-    · intro s h; simpa using hs.not_real s (by simpa using h)
     · intro u h; simpa using hs.lst_nil k u h
     · intro u h; simpa using hs.fixed_false k u h
     · intro s u h; exact hs.loc_lt k s u (by simpa using h)
 
-theorem sideInv_of_sinv {w : World} (k : Which) (h : SInv w.nU (w.get k)) :
-    SideInv w.real (w.side k) := by
-  refine ⟨fun u s hr => ?_, fun u s hr => ?_, fun u hf => ?_⟩
-  · have := h.cnt u s (by simpa using hr)
+theorem sideInv_of_sinv {w : World} (k : Which) (h : SInv w.nU All (w.get k)) :
+    SideInv (w.side k) := by
+  refine ⟨fun u s => ?_, fun u s => ?_, fun u hf => ?_⟩
+  · have := h.cnt u s trivial
     simp only [get_sd] at this
     rw [← List.count_pos_iff, this]
     split <;> simp [*]
-  · have := h.cnt u s (by simpa using hr)
+  · have := h.cnt u s trivial
     simp only [get_sd] at this
     rw [this]; split <;> omega
   · have := h.fx u (by simpa using hf)
     simpa using this
 
 theorem goodS_of {w : World} (h : Inv w ∧ Scoped w) : GoodS w :=
-  ⟨sinv_of_sideInv .i h.1.ins h.2, sinv_of_sideInv .o h.1.outs h.2⟩
+  ⟨sinv_of_sideInv .i h.1.ins h.2, sinv_of_sideInv .o h.1.outs h.2, h.2.not_real⟩
 
 theorem of_goodS {w : World} (h : GoodS w) : Inv w ∧ Scoped w := by
-  refine ⟨⟨sideInv_of_sinv .i h.1, sideInv_of_sinv .o h.2⟩, ?_⟩
-  have side : ∀ k, SInv w.nU (w.get k) := fun k => by cases k; exact h.1; exact h.2
+  refine ⟨⟨sideInv_of_sinv .i h.ins, sideInv_of_sinv .o h.outs⟩, ?_⟩
+  have side : ∀ k, SInv w.nU All (w.get k) := h.side
   constructor
   · intro k u s hm; simpa using (side k).sc.lst_lt u s (by simpa using hm)
   · intro k s hs; simpa using (side k).sc.loc_none s (by simpa using hs)
-  · intro s hs; simpa using h.1.sc.not_real s (by simpa using hs)
+  · exact h.nreal
   · intro k u hu; simpa using (side k).sc.lst_nil u hu
   · intro k u hu; simpa using (side k).sc.fixed_false u hu
   · intro k s u hl; exact (side k).sc.loc_lt s u (by simpa using hl)
@@ -118,7 +124,8 @@ theorem pre_sticky (w w' : World) (op : Op) (h : w.step op = .ok w') (hp : w'.pr
   simp only [Bool.and_eq_true] at this
   exact this.1.1
 
-/-- One operation preserves the invariant (all 22 operation kinds). -/
+/-- One operation preserves the invariant (all 22 operation kinds), for streams and
+placeholder objects alike. -/
 theorem inv_step (w w' : World) (op : Op) (hg : Good w) (h : w.step op = .ok w') : Good w' := by
   intro hp
   have S := exec_wstep h
@@ -126,7 +133,7 @@ theorem inv_step (w w' : World) (op : Op) (hg : Good w) (h : w.step op = .ok w')
   simp only [Bool.and_eq_true] at hp0
   obtain ⟨⟨hpw, hids⟩, hunits⟩ := hp0
   have hG := goodS_of (hg hpw)
-  exact of_goodS (S.inv hp ⟨hG.1.of_eq rfl rfl rfl, hG.2.of_eq rfl rfl rfl⟩ ⟨hids, hunits⟩)
+  exact of_goodS (S.inv hp ⟨hG.ins.of_eq rfl rfl, hG.outs.of_eq rfl rfl, hG.nreal⟩ ⟨hids, hunits⟩)
 
 /-- Every history, of any length. -/
 theorem inv_history (ops : List Op) (w : World) (hg : Good w) : Good (w.run ops) := by
@@ -139,18 +146,86 @@ theorem inv_history (ops : List Op) (w : World) (hg : Good w) : Good (w.run ops)
     · exact hg
 
 /-- The property as stated: after any sequence of operations from the empty
-flowsheet, all used within their preconditions, the docking invariant holds. -/
+flowsheet, all used within their preconditions, the docking invariant holds —
+for every object, stream or placeholder. -/
 theorem C18_docking_invariant (ops : List Op) (h : (World.init.run ops).pre = true) :
     Inv (World.init.run ops) :=
   (inv_history ops World.init good_init h).1
 
-/-- "No stream occupies two ports", across units: a consequence of `Inv`. -/
+/-- "No stream occupies two ports", across units: a consequence of `Inv`; holds for
+placeholder objects too. -/
 theorem one_unit_per_side (w : World) (hi : Inv w) (k : Which) (s u v : Nat)
-    (hr : w.real s = true) (hu : s ∈ (w.side k).lst u) (hv : s ∈ (w.side k).lst v) : u = v := by
-  have hs : SideInv w.real (w.side k) := by cases k; exact hi.ins; exact hi.outs
-  have h1 := (hs.listed_iff_docked u s hr).mp hu
-  have h2 := (hs.listed_iff_docked v s hr).mp hv
+    (hu : s ∈ (w.side k).lst u) (hv : s ∈ (w.side k).lst v) : u = v := by
+  have hs : SideInv (w.side k) := by cases k; exact hi.ins; exact hi.outs
+  have h1 := (hs.listed_iff_docked u s).mp hu
+  have h2 := (hs.listed_iff_docked v s).mp hv
   rw [h1] at h2; exact Option.some.inj h2
+
+/-- The clause the earlier, stream-only formulation could not see: after any history within
+the preconditions a *placeholder* object is listed among a unit's inlets exactly when that unit
+is its sink, among its outlets exactly when it is its source, and never sits in two ports. -/
+theorem C18_placeholders (ops : List Op) (h : (World.init.run ops).pre = true) (k : Which)
+    (m : Nat) (_hm : (World.init.run ops).real m = false) (u : Nat) :
+    (m ∈ ((World.init.run ops).side k).lst u ↔ ((World.init.run ops).side k).loc m = some u) ∧
+      (((World.init.run ops).side k).lst u).count m ≤ 1 := by
+  have hi := C18_docking_invariant ops h
+  have hs : SideInv ((World.init.run ops).side k) := by cases k; exact hi.ins; exact hi.outs
+  exact ⟨hs.listed_iff_docked u m, hs.no_two_ports u m⟩
+
+/-- Objects that are not allocated (in particular the placeholders a later operation will
+create) are not streams, are listed nowhere and docked nowhere. -/
+theorem C18_scoped (ops : List Op) (h : (World.init.run ops).pre = true) :
+    Scoped (World.init.run ops) :=
+  (inv_history ops World.init good_init h).2
+
+/-- An object never changes its kind: a placeholder stays a placeholder (it never starts to
+report material), a stream stays a stream.  Holds for every operation, inside or outside the
+preconditions. -/
+theorem kind_stable (w w' : World) (op : Op) (h : w.step op = .ok w') (s : Nat) (hs : s < w.nS) :
+    w'.real s = w.real s :=
+  (exec_wstep h).ext.real_old s hs
+
+theorem kind_stable_history (ops : List Op) (w : World) (s : Nat) (hs : s < w.nS) :
+    (w.run ops).real s = w.real s := by
+  induction ops generalizing w with
+  | nil => rfl
+  | cons op ops ih =>
+    simp only [World.run]
+    split
+    · rename_i w' h
+      have hn : w.nS ≤ w'.nS := (exec_wstep h).ext.nS
+      rw [ih w' (Nat.lt_of_lt_of_le hs hn)]
+      exact kind_stable w w' op h s hs
+    · rfl
+
+/-- "Vacated ports are filled by placeholders", for the operation every disconnection goes
+through (`seq.remove(s)`; `disconnect_source/sink` and `_redock` call it): the port that `s`
+occupied holds a brand-new object afterwards, that object is a placeholder (not a stream — and by
+`kind_stable` it never becomes one), its pointer names the unit, `s` is undocked, and no other
+port of the list changes. -/
+theorem vacated_port_filled_by_placeholder (w w' : World) (k : Which) (u s : Nat)
+    (hg : Good w) (hp : w.pre = true) (h : w.step (.remove k u s) = .ok w') :
+    ∃ i, ((w.side k).lst u).idxOf? s = some i ∧
+      (w'.side k).lst u = ((w.side k).lst u).set i w.nS ∧
+      w'.real w.nS = false ∧ (w'.side k).loc w.nS = some u ∧ (w'.side k).loc s = none := by
+  have hG := goodS_of (hg hp)
+  simp only [World.step, World.exec, World.on] at h
+  obtain ⟨r, hr, h⟩ := bind_ok.mp h
+  cases h
+  have hsc : Sc w.nU (({ w with pre := w.pre && (Op.remove k u s).ids.all (· < w.nS) &&
+      (Op.remove k u s).units.all (· < w.nU) } : World).get k) := (hG.side k).sc.of_eq (by cases k <;> rfl)
+      (by cases k <;> rfl)
+  obtain ⟨i, h1, h2, _, h4, h5⟩ := remove_spec hsc hr
+  have e1 : (({ w with pre := w.pre && (Op.remove k u s).ids.all (· < w.nS) &&
+      (Op.remove k u s).units.all (· < w.nU) } : World).get k).sd = w.side k := by cases k <;> rfl
+  have e2 : (({ w with pre := w.pre && (Op.remove k u s).ids.all (· < w.nS) &&
+      (Op.remove k u s).units.all (· < w.nU) } : World).get k).next = w.nS := by cases k <;> rfl
+  rw [e1] at h1 h2; rw [e2] at h2 h4
+  refine ⟨i, h1, ?_, ?_, ?_, ?_⟩
+  · rw [put_side_same]; exact h2
+  · rw [put_real]; exact hG.nreal w.nS (Nat.le_refl _)
+  · rw [put_side_same]; exact h4
+  · rw [put_side_same]; exact h5
 
 /-- Non-vacuity: a concrete history exercising redocking across units, pop, slice
 assignment and piping stays within the preconditions (so the theorem above applies to it). -/
@@ -163,6 +238,52 @@ example :
       , .set .i 1 0 (some 6)
       , .pop .i 1 0
       , .pipeUU 1 0 ]).pre = true := by
+  rfl
+
+/-- The history of the seeded change C18-4, scenario 1: units `A`, `B`, `C` with two fixed inlets
+and outlets; `A` has the vacant outlet port `A.outs[1]` (placeholder object `7`); `A - B` carries
+that object into `B.ins[1]`, re-piping `A - C` moves it on to `C.ins[1]`. -/
+def movesPlaceholder : List Op :=
+  [ .newStream, .newStream, .newStream, .newStream
+  , .newUnit 2 true (.given [.strm 0]) 2 true (.given [.strm 1])
+  , .newUnit 2 true .missing 2 true (.given [.strm 2])
+  , .newUnit 2 true .missing 2 true (.given [.strm 3])
+  , .pipeUU 0 1
+  , .pipeUU 0 2 ]
+
+/-- Non-vacuity for placeholders: the history stays within the preconditions, … -/
+example : (World.init.run movesPlaceholder).pre = true := by rfl
+
+/-- … and it does move a placeholder object between units: object `7` is not a stream, it was in
+`B.ins` after `A - B`, and after `A - C` it is the second inlet of `C`, its sink is `C`, its source
+is still `A`, and `B`'s inlets were refilled with fresh placeholders (`16`, `17`). -/
+example :
+    (World.init.run movesPlaceholder).real 7 = false ∧
+    (World.init.run (movesPlaceholder.take 8)).ins.lst 1 = [1, 7] ∧
+    (World.init.run movesPlaceholder).ins.lst 2 = [1, 7] ∧
+    (World.init.run movesPlaceholder).ins.loc 7 = some 2 ∧
+    (World.init.run movesPlaceholder).outs.loc 7 = some 0 ∧
+    (World.init.run movesPlaceholder).outs.lst 0 = [1, 7] ∧
+    (World.init.run movesPlaceholder).ins.lst 1 = [16, 17] := by
+  refine ⟨rfl, rfl, rfl, rfl, rfl, rfl, rfl⟩
+
+/-- Non-vacuity for item assignment of a placeholder taken from another unit's list, popping it
+and appending it elsewhere: all within the preconditions. -/
+example :
+    (World.init.run
+      [ .newUnit 2 true .missing 1 true .missing      -- U0.i=[0,1] U0.o=[2]
+      , .newUnit 1 false .missing 2 true .missing     -- U1.i=[3]   U1.o=[4,5]
+      , .set .i 1 0 (some 0)                          -- `U1.ins[0] = U0.ins[0]`: object 0 moves
+      , .pop .i 1 0                                   -- returns the placeholder, undocked
+      , .append .i 1 0 ]).pre = true := by
+  rfl
+
+/-- The monitor does its job: assigning a placeholder to a second port of its own list
+(`ins[0] = ins[1]`) is outside "a stream assigned to a port is not already in the same port list". -/
+example :
+    (World.init.run
+      [ .newUnit 2 true .missing 1 true .missing
+      , .set .i 0 0 (some 1) ]).pre = false := by
   rfl
 
 end ThermoVerif.Props.C18
